@@ -7,6 +7,7 @@ package main
 import (
 	"fmt"
 	"go/types"
+	"strconv"
 	"strings"
 
 	"golang.org/x/tools/go/ssa"
@@ -121,6 +122,47 @@ func (p *Path) goValue(fr *frame, it iface, verb byte) (gv interface{}, sym valu
 		return v, nil, true
 	case *SymStr:
 		return nil, v, true
+	case structure:
+		// %v of a struct whose fields are method-less strings and integers: {f1 f2 ...}
+		if st, ok := t.Underlying().(*types.Struct); ok && verb == 'v' && !hasFmtMethod(t) {
+			var out value = "{"
+			for i := range v {
+				ft := st.Field(i).Type()
+				bb, isBasic := ft.Underlying().(*types.Basic)
+				if !isBasic || hasFmtMethod(ft) {
+					return fmtOpaque{"{" + types.TypeString(t, pkgNameQualifier) + "}"}, nil, false
+				}
+				if i > 0 {
+					out = strConcat(out, " ")
+				}
+				switch {
+				case bb.Info()&types.IsString != 0:
+					if ss, isSym := v[i].(*SymStr); isSym && ss.taint != "" {
+						return fmtOpaque{"{?}"}, nil, false
+					}
+					out = strConcat(out, v[i])
+				case bb.Info()&types.IsInteger != 0:
+					tm := v[i].(*Term)
+					signed := bb.Info()&types.IsUnsigned == 0
+					if tm.IsConst() {
+						if signed {
+							out = strConcat(out, strconv.FormatInt(tm.SVal(), 10))
+						} else {
+							out = strConcat(out, strconv.FormatUint(tm.c, 10))
+						}
+					} else {
+						out = strConcat(out, p.formatIntSym(tm, signed))
+					}
+				default:
+					return fmtOpaque{"{" + types.TypeString(t, pkgNameQualifier) + "}"}, nil, false
+				}
+			}
+			out = strConcat(out, "}")
+			if s, isStr := out.(string); isStr {
+				return s, nil, true
+			}
+			return nil, out, true
+		}
 	case []value:
 		if st, ok := t.Underlying().(*types.Slice); ok {
 			if eb, ok := st.Elem().Underlying().(*types.Basic); ok {
